@@ -27,7 +27,77 @@ type Term struct {
 
 func (t *Term) String() string { return t.S }
 
-func mk(sort Sort, s string) *Term { return &Term{S: s, Sort: sort} }
+func mk(sort Sort, s string) *Term { return &Term{S: simplifySliceAcc(s), Sort: sort} }
+
+// splitSexprArgs splits the top-level arguments of "a (b c) d" (balanced parentheses assumed).
+func splitSexprArgs(s string) []string {
+	var out []string
+	depth, start := 0, -1
+	for i := 0; i < len(s); i++ {
+		ch := s[i]
+		switch {
+		case ch == '(':
+			if depth == 0 && start < 0 {
+				start = i
+			}
+			depth++
+		case ch == ')':
+			depth--
+			if depth == 0 && start >= 0 {
+				out = append(out, s[start:i+1])
+				start = -1
+			}
+		case ch == ' ':
+			if depth == 0 && start >= 0 {
+				out = append(out, s[start:i])
+				start = -1
+			}
+		default:
+			if depth == 0 && start < 0 {
+				start = i
+			}
+		}
+	}
+	if start >= 0 {
+		out = append(out, s[start:])
+	}
+	return out
+}
+
+// simplifySliceAcc folds the projections of an explicit slice triple: (s.arr (mk-slice a o l)) = a, (s.off ..) = o,
+// (s.len ..) = l, (sidx (mk-slice a o l) i) = o + i. Besides shortening queries this lets the write tracker see that an
+// element store goes to an array allocated in the current function (framed loop havoc).
+func simplifySliceAcc(s string) string {
+	const mkp = "(mk-slice "
+	for _, acc := range [...]string{"(s.arr ", "(s.off ", "(s.len "} {
+		if strings.HasPrefix(s, acc+mkp) && strings.HasSuffix(s, "))") {
+			args := splitSexprArgs(s[len(acc)+len(mkp) : len(s)-2])
+			if len(args) == 3 {
+				switch acc {
+				case "(s.arr ":
+					return args[0]
+				case "(s.off ":
+					return args[1]
+				default:
+					return args[2]
+				}
+			}
+		}
+	}
+	if strings.HasPrefix(s, "(sidx "+mkp) && strings.HasSuffix(s, ")") {
+		top := splitSexprArgs(s[len("(sidx ") : len(s)-1])
+		if len(top) == 2 && strings.HasPrefix(top[0], mkp) {
+			args := splitSexprArgs(top[0][len(mkp) : len(top[0])-1])
+			if len(args) == 3 {
+				if args[1] == "0" {
+					return top[1]
+				}
+				return "(+ " + args[1] + " " + top[1] + ")"
+			}
+		}
+	}
+	return s
+}
 
 func app(sort Sort, f string, args ...*Term) *Term {
 	var b strings.Builder
